@@ -30,17 +30,40 @@ var stmtTimeout = 20 * time.Second
 
 var unsafeRe = regexp.MustCompile(`(?i)\b(sleep|benchmark|get_lock|release_lock|release_all_locks|is_free_lock|is_used_lock|load_file|outfile|dumpfile|infile)\b`)
 
-// Allocation guard (machine safety, see notes: C10-unbounded-alloc): functions whose numeric
-// argument sizes their result are not run with numbers of 8+ digits / exponents.
-var allocFnRe = regexp.MustCompile(`(?i)\b(repeat|space|lpad|rpad|format|random_bytes|insert|export_set|make_set|round|truncate|char|weight_string|binary|varbinary|varchar|conv|bin|uncompress|pow|power|exp|string_to_vector|limit|offset|ntile|lag|lead|nth_value|preceding|following)\b`)
-var bigNumRe = regexp.MustCompile(`(?i)(\d{8,}|\de\+?\d|0x[0-9a-f]{7,}|~|<<|\bpow|\bexp\b)`)
+// Allocation guard (machine safety, see notes: C10-unbounded-alloc): the engine enforces no
+// max_allowed_packet, so functions whose numeric argument sizes their result are not run with
+// numbers of 8+ digits / exponents / wide hex literals / user variables inside their argument list.
+var allocFnRe = regexp.MustCompile(`(?i)\b(repeat|space|lpad|rpad|format|random_bytes|insert|export_set|make_set|round|truncate|char|weight_string|binary|varbinary|varchar|conv|bin|uncompress|pow|power|exp|string_to_vector|ntile|lag|lead|nth_value|cast|convert)\s*\(`)
+var bigNumRe = regexp.MustCompile(`(?i)(\d{8,}|\de\+?\d|0x[0-9a-f]{7,}|~|<<|\bpow|\bexp\b|@)`)
+
+// allocRisk reports whether a length-like function call has a huge number among its arguments.
+func allocRisk(q string) bool {
+	for _, m := range allocFnRe.FindAllStringIndex(q, -1) {
+		depth, end := 0, len(q)
+		for i := m[1] - 1; i < len(q); i++ {
+			if q[i] == '(' {
+				depth++
+			} else if q[i] == ')' {
+				depth--
+				if depth == 0 {
+					end = i
+					break
+				}
+			}
+		}
+		if bigNumRe.MatchString(q[m[1]:end]) {
+			return true
+		}
+	}
+	return false
+}
 
 // unsafeStmt returns a non-empty reason when the statement must not be executed.
 func unsafeStmt(q string, grammar bool) string {
 	if unsafeRe.MatchString(q) {
 		return "blocking-or-file"
 	}
-	if allocFnRe.MatchString(q) && bigNumRe.MatchString(q) {
+	if allocRisk(q) {
 		return "alloc-guard"
 	}
 	if !grammar {
